@@ -69,4 +69,6 @@ def ref_pair(name, params):
     if name == "octave":
         lo = params["low_hz"]
         return (lambda f: octave_fwd(f, lo)), (lambda s: octave_inv(s, lo))
+    if name == "vfsqrt":  # the user-defined scale of vf/userbank.py
+        return (lambda f: math.sqrt(f + 100.0)), (lambda s: s * s - 100.0)
     raise KeyError(name)
